@@ -63,11 +63,12 @@ func (r *SecureRealm[A, Pub]) Drop(s *SecureSwarm[A, Pub]) {
 		panic("drop called with Swarm from a different Realm")
 	}
 	r.mu.Lock()
-	defer r.mu.Unlock()
 	s2, exists := r.swarms[s.local]
+	r.mu.Unlock()
 	if !exists || s2 != s {
 		panic("swarm is already closed")
 	}
+	// not under r.mu: closing the queue waits for Receive callbacks in flight, and a callback may Tell through this realm
 	s.tells.Close()
 	s.asks.Close()
 }
